@@ -9,7 +9,7 @@ Cases: io.sync <stream> <terminal error 50=EOF|60=reader error> <bufio size> <un
 from vlib import Case, hx, parse_val
 
 PROP = "C16"
-PROOF_FILES = ["Properties/C16.v"]
+PROOF_FILES = ["Properties/C16.v", "Properties/ModelTie.v"]
 RULE = ("streams = garbage prefix containing 0..5 false sync bytes (0x47 followed by a header with AFC=00 or PID in 4..15, "
         "0x47 runs, 0x47 inside the last three bytes) + optionally a plausible header and packets, or cut by end of stream "
         "1..3 bytes after a 0x47; every stream is run over bufio sizes 16..4096 on top of one-byte / half / full / "
